@@ -99,7 +99,7 @@ def memo_histories(chk, ctx, rng, tier):
 def history(chk, ctx, rng, tier):
     from concurrent.futures import ThreadPoolExecutor
     path = ctx['scratch'] or ctx['repo']
-    nops = 30
+    from .c20_ops import N_OPS as nops
     n_seq = 2 if tier == 'quick' else 8
     for s in range(n_seq):
         L = int(rng.integers(2, 41)) if tier == 'thorough' else int(rng.integers(8, 25))
